@@ -55,8 +55,23 @@ def canon (kd : Bool) : STree → String
   | .leaf _ ix => "L[" ++ joinWith "," ((sortNat ix).map toString) ++ "]"
   | .node _ cd thr l r => (if kd then s!"N({cd},{ratME thr})" else "N") ++ canon kd l ++ canon kd r
 
-/-- parse the preorder dump `N rank cd m e | L rank size idx...` -/
-partial def parseDump : List String → Option (STree × List String)
+/-- the dump of the real tree: kd nodes carry the cut dimension (`a`), LC/KHC nodes the pivot pair
+`(a, b)` = (positive, negative); `thr` is the real `m_threshold` -/
+inductive RTree where
+  | leaf (rank : Nat) (idx : List Nat)
+  | node (rank : Nat) (a b : Nat) (thr : Rat) (l r : RTree)
+deriving Inhabited
+
+def RTree.idx : RTree → List Nat
+  | .leaf _ ix => ix
+  | .node _ _ _ _ l r => l.idx ++ r.idx
+
+def RTree.toS : RTree → STree
+  | .leaf rk ix => .leaf rk ix
+  | .node rk a _ thr l r => .node rk a thr l.toS r.toS
+
+/-- parse the preorder dump `N rank cd m e | P rank pos neg m e | L rank size idx...` -/
+partial def parseDump : List String → Option (RTree × List String)
   | "L" :: rk :: sz :: rest => do
     let rank ← rk.toNat?
     let n ← sz.toNat?
@@ -69,20 +84,77 @@ partial def parseDump : List String → Option (STree × List String)
     let ei ← e.toInt?
     let (l, rest1) ← parseDump rest
     let (r, rest2) ← parseDump rest1
-    pure (.node rank c (meToRat mi ei) l r, rest2)
+    pure (.node rank c 0 (meToRat mi ei) l r, rest2)
+  | "P" :: rk :: a :: b :: m :: e :: rest => do
+    let rank ← rk.toNat?
+    let a ← a.toNat?
+    let b ← b.toNat?
+    let mi ← m.toInt?
+    let ei ← e.toInt?
+    let (l, rest1) ← parseDump rest
+    let (r, rest2) ← parseDump rest1
+    pure (.node rank a b (meToRat mi ei) l r, rest2)
   | _ => none
 
-/-- the model tree with the leaf order and ranks of the real one, provided both
-have the same shape, cuts, thresholds and leaf index sets -/
-def adopt : STree → STree → Option STree
-  | .leaf _ ix, .leaf rk ix' => if sortNat ix = sortNat ix' then some (.leaf rk ix') else none
-  | .node _ cd thr l r, .node rk cd' thr' l' r' =>
-    if cd = cd' ∧ thr = thr' then do
-      let a ← adopt l l'
-      let b ← adopt r r'
-      pure (.node rk cd thr a b)
-    else none
-  | _, _ => none
+def absR (r : Rat) : Rat := if r < 0 then -r else r
+
+/-- equal up to the rounding of the C++ doubles (relative 2^-40) -/
+def relClose (a b : Rat) : Bool := decide (absR (a - b) ≤ (1 / ((2 ^ 40 : Nat) : Rat)) * (1 + absR b))
+
+/-- LC/KHC construction, node by node on the REAL tree: at every real inner node the model's
+`splitList` on the scaled projections for the real pivot pair (the step of `buildPiv`) must produce the
+real children's index sets and (up to rounding) the real threshold; the pivot pair must be a pair of
+maximal distance of the cell (cells of at most 25 points: `calculateNormal` sees all of them); a
+real leaf above the bucket size must be unsplittable (all points at distance 0).  Where the IDEAL
+projections of points on both sides of the real cut are equal (the rounded doubles of the C++ break
+the tie), the real cut is accepted if it is consistent with the ideal order; such nodes are counted.
+Returns the real structure with the model's (scaled) thresholds, the complaints and the tie count. -/
+partial def checkPiv (k : Point → Point → Rat) (P : Nat → Point) (bucket : Nat) :
+    RTree → PTree × List String × Nat
+  | .leaf rk ix =>
+    let fd := fun i j => featureDist2 k (P i) (P j)
+    let bad := if ix.length ≤ bucket ∨ ix.length > 25 then []
+      else if ix.all fun i => ix.all fun j => decide (fd i j = 0) then [] else ["leaf-could-be-split"]
+    (.leaf rk ix, bad, 0)
+  | .node rk a b thr l r =>
+    let I := l.idx ++ r.idx
+    let pn := (a, b)
+    let val := fun i => projVal k P pn (P i)
+    let D := pivD k P pn
+    let fd := fun i j => featureDist2 k (P i) (P j)
+    let b1 := if I.contains a ∧ I.contains b then [] else ["pivot-outside-cell"]
+    let b2 := if I.length ≤ 25 ∧ !(I.all fun i => I.all fun j => decide (fd i j ≤ D)) then ["pivot-not-farthest"] else []
+    let b3 := if I.length ≤ bucket then ["split-below-bucket"] else []
+    let (thr', b4, tie) := match splitList val I with
+      | none => ((0 : Rat), ["model-cannot-split"], 0)
+      | some s =>
+        if s.left.isPerm l.idx ∧ s.right.isPerm r.idx then
+          -- real threshold t (a rounded double, in true units) against the model's scaled one: |t*sqrt(D) - s.thr|
+          -- is small against the size M of the projections it was averaged from (no square root: squares compared)
+          let eps : Rat := 1 / ((2 ^ 40 : Nat) : Rat)
+          let M := I.foldl (fun m i => if m < absR (val i) then absR (val i) else m) 0
+          let A := thr * thr * D
+          let lo := if absR s.thr ≤ eps * M then 0 else absR s.thr - eps * M
+          let hi := absR s.thr + eps * M
+          let okMag := decide (lo * lo ≤ A ∧ A ≤ hi * hi)
+          let okSign := decide (absR s.thr ≤ eps * M) || decide ((thr < 0 ∧ s.thr < 0) ∨ (0 < thr ∧ 0 < s.thr))
+          (s.thr, if okMag ∧ okSign then [] else ["threshold"], 0)
+        else
+          let maxL := maxOver val l.idx
+          let minR := minOver val r.idx
+          if l.idx ≠ [] ∧ r.idx ≠ [] ∧ maxL = minR then (maxL, [], 1) else (s.thr, ["split-differs"], 0)
+    let (lt, bl, tl) := checkPiv k P bucket l
+    let (rt, br, tr) := checkPiv k P bucket r
+    (.node rk pn thr' lt rt, b1 ++ b2 ++ b3 ++ b4 ++ bl ++ br, tie + tl + tr)
+
+/-- per node in preorder: does the query lie exactly on the node's (ideal) plane? -/
+def planeFlags (k : Point → Point → Rat) (P : Nat → Point) (q : Point) : PTree → List Bool
+  | .leaf _ _ => [false]
+  | .node _ pn thr l r => decide (projVal k P pn q = thr) :: (planeFlags k P q l ++ planeFlags k P q r)
+
+def ptNodes : PTree → Nat
+  | .leaf .. => 0
+  | .node _ _ _ l r => 1 + ptNodes l + ptNodes r
 
 def parsePairs : List String → List (Rat × Bool)
   | m :: e :: b :: rest =>
@@ -115,7 +187,7 @@ kd-trees (exact arithmetic on integer data); LC/KHC bounds are rounded doubles
 (normalised normal vector, `dist*dist`), they may exceed the exact value by a few ulps:
 relative slack 2^-40 there (floating point, outside the model). -/
 def admissible (slack : Rat) (dist : Nat → Rat) : TTree → Bool
-  | .leaf _ lb lf => lf.pts.all fun i => decide (lb ≤ dist i + slack * (dist i + 1))
+  | .leaf _ lb es => (qpts es).all fun i => decide (lb ≤ dist i + slack * (dist i + 1))
   | .node _ lb _ l r => ((l.pts ++ r.pts).all fun i => decide (lb ≤ dist i + slack * (dist i + 1))) &&
       admissible slack dist l && admissible slack dist r
 
@@ -131,10 +203,24 @@ structure St where
   labels : Array Nat := #[]
   kind : String := ""
   tree : Option STree := none     -- the real tree (model construction + adopted order for kd)
+  ptree : Option PTree := none    -- LC/KHC: the real structure with the model's scaled thresholds
   ok : Bool := false
   poly : Bool := false            -- metric of the tree: feature distance of the kernel (<x,y>+1)^2 (`khcp`)
+  scale : Int := 0                -- coordinates are the integers of the op lines times 2^scale
+  pq : Bool := false              -- the real IterativeNNQuery keeps a point queue (repair of K1), not a leaf queue
+  ties : Nat := 0                 -- statistics (stderr at the end)
+  pivNodes : Nat := 0
+  kdNodes : Nat := 0
+
+def St.kernel (s : St) : Point → Point → Rat := if s.poly then polyKernel 2 1 else dot
 
 def St.P (s : St) (i : Nat) : Point := s.pts.getD i []
+
+/-- 2^e -/
+def pow2r (e : Int) : Rat := if e ≥ 0 then ((pow2 e.toNat : Nat) : Rat) else 1 / ((pow2 (-e).toNat : Nat) : Rat)
+
+/-- a squared distance in units of the integer grid of the op lines -/
+def St.unsq (s : St) (d : Rat) : Rat := d / (pow2r s.scale * pow2r s.scale)
 
 /-- squared distance of point `i` to the query in the metric of the current tree -/
 def St.dist (s : St) (q : Point) (i : Nat) : Rat :=
@@ -153,7 +239,7 @@ def chunks (d : Nat) (xs : List Int) : Nat → List (List Int)
 def splitBar (toks : List String) : List String × List String :=
   (toks.takeWhile (· ≠ "|"), (toks.dropWhile (· ≠ "|")).drop 1)
 
-def runQuery (t : TTree) (n : Nat) : String × List (Option (Rat × Nat)) := Id.run do
+def runQuery (unsq : Rat → Rat) (t : TTree) (n : Nat) : String × List (Option (Rat × Nat)) := Id.run do
   let mut s := init t
   let mut out := "init " ++ stateStr s
   let mut res : List (Option (Rat × Nat)) := []
@@ -161,7 +247,7 @@ def runQuery (t : TTree) (n : Nat) : String × List (Option (Rat × Nat)) := Id.
     let (s', o) := next s
     s := s'
     res := res ++ [o]
-    out := out ++ " ; " ++ (match o with | some (d, i) => s!"{ratInt d} {i}" | none => "UB") ++ " " ++ stateStr s
+    out := out ++ " ; " ++ (match o with | some (d, i) => s!"{ratInt (unsq d)} {i}" | none => "UB") ++ " " ++ stateStr s
   return (out, res)
 
 /-- build the TTree for a query from the state and the annotation -/
@@ -171,11 +257,40 @@ def mkTrace (s : St) (q : Point) (ann : List (Rat × Bool)) : Option (TTree × B
   | some tr =>
     let dist := s.dist q
     if s.kind = "kd" then
-      let t := kdTrace q dist tr Box.top
+      let t := kdTrace s.pq q dist tr Box.top
       some (t, tracePairs t == ann, admissible 0 dist t)
     else
-      let (t, _) := absTrace dist tr ann
-      some (t, true, admissible (1 / ((2 ^ 40 : Nat) : Rat)) dist t)
+      let (t, _) := absTrace s.pq dist tr ann
+      -- the real (rounded) bounds and isLeft decisions against the ideal ones of the model (`pivTrace`)
+      let lbok := match s.ptree with
+        | none => false
+        | some pt =>
+          let ideal := tracePairs (pivTrace s.pq s.kernel s.P q dist pt 0)
+          let onPlane := planeFlags s.kernel s.P q pt
+          ideal.length = ann.length &&
+            ((ideal.zip (ann.zip onPlane)).all fun (i, a, pl) =>
+              -- rounded doubles against ideal arithmetic: relative 2^-20 (cancellation in f(q) - threshold for far
+              -- queries), absolute 2^-20 grid units squared; a wrong bound is off by O(1)
+              decide (absR (a.1 - i.1) ≤ (1 / ((2 ^ 20 : Nat) : Rat)) * (pow2r s.scale * pow2r s.scale + absR i.1))
+                && (pl || a.2 == i.2))
+      some (t, lbok, admissible (1 / ((2 ^ 40 : Nat) : Rat)) dist t)
+
+/-- exact rendering of a Float as `m e` (the format of vh::exactDouble) -/
+partial def normME (m e : Int) : String :=
+  if m == 0 then "0 0" else
+  if m % 2 == 0 then normME (m / 2) (e + 1) else s!"{m} {e}"
+
+def showFloat (x : Float) : String :=
+  if x.isNaN then "nan" else if x.isInf then (if x > 0 then "inf" else "-inf") else
+  let b := x.toBits.toNat
+  let sign : Int := if b / 2 ^ 63 == 1 then -1 else 1
+  let ex : Nat := (b / 2 ^ 52) % 2048
+  let frac : Nat := b % 2 ^ 52
+  if ex == 0 then normME (sign * Int.ofNat frac) (-1074)
+  else normME (sign * Int.ofNat (2 ^ 52 + frac)) (Int.ofNat ex - 1075)
+
+/-- `DBL_MAX`, the key of the padding entries of `SimpleNearestNeighbors` for k > n (squared distance) -/
+def dblMax : Rat := (((2 ^ 1024 - 2 ^ 971 : Nat) : Int) : Rat)
 
 def floatArith : Arith Float := { zero := 0.0, add := (· + ·), div := (· / ·), lt := fun a b => a < b }
 
@@ -188,7 +303,7 @@ def invWeight (d2 : Rat) : Float :=
 
 /-- one query point of a `knn` / `model` op -/
 def pattern (s : St) (op : String) (k w : Nat) (qi : List Int) (annToks : List String) : Option String :=
-  let q : Point := qi.map fun (x : Int) => (x : Rat)
+  let q : Point := qi.map fun (x : Int) => (x : Rat) * pow2r s.scale
   let n := s.pts.size
   let dist := s.dist q
   match mkTrace s q (parsePairs annToks) with
@@ -201,10 +316,42 @@ def pattern (s : St) (op : String) (k w : Nat) (qi : List Int) (annToks : List S
     let bf := bruteForce dist n n
     let bfk := bf.take k
     let dk := (bfk.getLast?.map (·.1)).getD 0
-    if op = "knn" then
+    if k > n then
+      -- outside the property's quantifier: the tree back-end throws (the model: `next` answers `none` after n
+      -- calls), the exhaustive back-end pads its list with (DBL_MAX, label 0) entries, which vote
+      let throws := (treeKnn t k).any (·.isNone)
+      if op = "knn" then
+        some ((if throws then "tree-throws" else "tree-returns") ++ s!" simple-pads={k - n}" ++ flags)
+      else if op = "model" then
+        let numClasses := (s.labels.foldl max 0) + 1
+        let bnb := (bf.map fun x => (x.1, lab x.2)) ++ List.replicate (k - n) (dblMax, 0)
+        let cs := if w = 0 then predictClass ratArith numClasses (fun _ => 1) bnb
+                  else predictClass floatArith numClasses invWeight bnb
+        some (s!"class tree={if throws then "throws" else "returns"} simple={cs}" ++ flags)
+      else none
+    else if op = "reg" then
+      -- NearestNeighborModel<RealVector,RealVector>::eval: out += w*y over the neighbours in the order the tree
+      -- back-end reports them, then out /= wsum (the IEEE operations of the C++)
+      let y := fun (i : Nat) => (Float.ofNat (lab i), Float.ofInt (((7 * i + 3) % 5 : Nat) - 2))
+      let acc := tres.foldl (fun (a : Float × Float × Float) (d, i) =>
+        let wt := if w = 0 then 1.0 else invWeight d
+        (a.1 + wt * (y i).1, a.2.1 + wt * (y i).2, a.2.2 + wt)) (0.0, 0.0, 0.0)
+      let ambiguous : Bool := match bf[k]? with
+        | some nxt => decide (nxt.1 = dk)
+        | none => false
+      -- the exhaustive back-end: the same mean over the brute-force neighbours (any order inside the k-set:
+      -- equal up to rounding); it differs from the tree's value exactly where the tree search is wrong (K1)
+      let accS := bfk.foldl (fun (a : Float × Float × Float) (d, i) =>
+        let wt := if w = 0 then 1.0 else invWeight d
+        (a.1 + wt * (y i).1, a.2.1 + wt * (y i).2, a.2.2 + wt)) (0.0, 0.0, 0.0)
+      let close := fun (a b : Float) => (a - b).abs ≤ 1e-12 * (1.0 + a.abs)
+      let same := close (acc.1 / acc.2.2) (accS.1 / accS.2.2) && close (acc.2.1 / acc.2.2) (accS.2.1 / accS.2.2)
+      some (s!"reg tree={showFloat (acc.1 / acc.2.2)},{showFloat (acc.2.1 / acc.2.2)} simple=" ++
+        (if ambiguous then "*" else if same then "same" else "DIFF") ++ flags)
+    else if op = "knn" then
       let inner := sortNat ((bfk.filter fun x => decide (x.1 < dk)).map fun x => lab x.2)
-      some ("tree" ++ String.join (tnb.map fun (d, l) => s!" {ratInt d}:{l}")
-         ++ " simple" ++ String.join (bfk.map fun x => s!" {ratInt x.1}")
+      some ("tree" ++ String.join (tnb.map fun (d, l) => s!" {ratInt (s.unsq d)}:{l}")
+         ++ " simple" ++ String.join (bfk.map fun x => s!" {ratInt (s.unsq x.1)}")
          ++ " inner" ++ String.join (inner.map fun l => s!" {l}") ++ flags)
     else
       let numClasses := (s.labels.foldl max 0) + 1
@@ -225,48 +372,63 @@ def step (s : St) (line : String) : St × String :=
   match toks with
   | [] => (s, "")
   | ["batch", _] => (s, "ok")     -- batch size of the C++ data set: invisible to the model
+  | ["scale", e] =>
+    match e.toInt? with
+    | some e => if e < -40 ∨ e > 40 then (s, "bad-op") else
+      ({ s with scale := e, dim := 0, pts := #[], labels := #[], tree := none, ptree := none }, "ok")
+    | none => (s, "bad-op")
   | "data" :: d :: n :: rest =>
     match d.toNat?, n.toNat?, rest.mapM String.toInt? with
     | some d, some n, some xs =>
       if xs.length ≠ d * n ∨ n = 0 ∨ d = 0 then (s, "bad-op") else
-      let pts := (List.range n).map fun i => ((xs.drop (i * d)).take d).map fun (x : Int) => (x : Rat)
-      ({ dim := d, pts := pts.toArray, labels := (List.replicate n 0).toArray }, s!"ok n={n} d={d}")
+      let pts := (List.range n).map fun i => ((xs.drop (i * d)).take d).map fun (x : Int) => (x : Rat) * pow2r s.scale
+      ({ s with dim := d, pts := pts.toArray, labels := (List.replicate n 0).toArray, kind := "", tree := none,
+                ptree := none, ok := false, poly := false }, s!"ok n={n} d={d}")
     | _, _, _ => (s, "bad-op")
   | "labels" :: rest =>
     match rest.mapM String.toNat? with
     | some ls => if ls.length = s.pts.size then ({ s with labels := ls.toArray }, "ok") else (s, "bad-op")
     | none => (s, "bad-op")
   | ["build", kind, md, mb] =>
-    match md.toNat?, mb.toNat?, parseDump annToks with
-    | some md, some mb, some (real, _) =>
+    -- the annotation starts with the queue variant of the real IterativeNNQuery (LQ = leaf queue, PQ = point queue)
+    let pq := annToks.head? = some "PQ"
+    match md.toNat?, mb.toNat?, parseDump (annToks.drop 1) with
+    | some md, some mb, some (realR, _) =>
       let n := s.pts.size
+      let real := realR.toS
       let perm := sortNat real.idx == List.range n
       if kind = "kd" then
         let model := kdTree s.P s.dim n md mb
         -- printed: the MODEL's construction; the real order/ranks are adopted only if consistent
         -- (if they disagree the `tree` line differs; the queries then run on the real tree so that
         -- the model reproduces what the real search does on it)
-        let tr := (adopt model real).getD real
-        ({ s with kind := kind, poly := false, tree := some tr, ok := (adopt model real).isSome },
+        let tr := (adoptKD model real).getD real
+        ({ s with kind := kind, poly := false, pq := pq, tree := some tr, ptree := none, ok := (adoptKD model real).isSome,
+                  kdNodes := s.kdNodes + model.nodes },
           s!"tree {canon true model} nodes={model.nodes} perm={if perm then 1 else 0}")
       else if kind = "lc" ∨ kind = "khc" ∨ kind = "khcp" then
-        ({ s with kind := kind, poly := (kind = "khcp"), tree := some real, ok := true },
-          s!"tree {canon false real} nodes={real.nodes} perm={if perm then 1 else 0}")
+        let poly := (kind = "khcp")
+        let kern : Point → Point → Rat := if poly then polyKernel 2 1 else dot
+        let (pt, bad, ties) := checkPiv kern s.P (normBucket mb) realR
+        ({ s with kind := kind, poly := poly, pq := pq, tree := some real, ptree := some pt, ok := true,
+                  ties := s.ties + ties, pivNodes := s.pivNodes + ptNodes pt },
+          s!"tree {canon false real} nodes={real.nodes} perm={if perm then 1 else 0}" ++
+            (if bad.isEmpty then "" else " MODEL-MISMATCH:" ++ joinWith "," bad.eraseDups))
       else (s, "bad-op")
     | _, _, _ => (s, "bad-op")
   | "query" :: rest =>
     match rest.mapM String.toInt? with
     | some qs =>
       if qs.length ≠ s.dim then (s, "bad-op") else
-      let q : Point := qs.map fun (x : Int) => (x : Rat)
+      let q : Point := qs.map fun (x : Int) => (x : Rat) * pow2r s.scale
       match mkTrace s q (parsePairs annToks) with
       | none => (s, "bad-op")
       | some (t, lbok, adm) =>
-        let (out, _) := runQuery t s.pts.size
+        let (out, _) := runQuery s.unsq t s.pts.size
         (s, out ++ (if lbok then "" else " LB-MISMATCH") ++ (if adm then "" else " INADMISSIBLE"))
     | none => (s, "bad-op")
   | op :: k :: w :: rest =>
-    if op ≠ "knn" ∧ op ≠ "model" then (s, "bad-op") else
+    if op ≠ "knn" ∧ op ≠ "model" ∧ op ≠ "reg" then (s, "bad-op") else
     match k.toNat?, w.toNat?, rest.mapM String.toInt? with
     | some k, some w, some qs =>
       if s.dim = 0 ∨ qs.length = 0 ∨ qs.length % s.dim ≠ 0 then (s, "bad-op") else
@@ -281,7 +443,10 @@ def step (s : St) (line : String) : St × String :=
 
 partial def loop (h : IO.FS.Stream) (out : IO.FS.Stream) (s : St) : IO Unit := do
   let line ← h.getLine
-  if line.isEmpty then return ()
+  if line.isEmpty then
+    -- statistics for the evidence (tools/c17_drv.py collects them)
+    (← IO.getStderr).putStrLn s!"STAT pivot_nodes_checked {s.pivNodes} pivot_nodes_with_rounding_tie {s.ties} kd_nodes_modelled {s.kdNodes}"
+    return ()
   let (s', o) := step s line
   out.putStrLn o
   loop h out s'
